@@ -185,7 +185,7 @@ pub fn run(ctx: &Ctx) {
     ctx.assume("CMSHeap::new takes a CountMinSketch with the default hasher, so the shadow sketch with equal (w, d) is identical to the internal one");
     ctx.run_regressions(&[&C10]);
     let t = ctx.tier;
-    ctx.run_random(&C10, t.pick(500_000, 4_000_000), move || strategy(t));
+    ctx.run_random(&C10, t.pick(500_000, 3_000_000), move || strategy(t));
     ctx.require_class("prefixes", "displacement", 0.2);
     ctx.require_class("prefixes", "sketch_collisions", 0.2);
     ctx.require_class("prefixes", "exact_sketch", 0.15);
